@@ -58,7 +58,8 @@ Definition canonical_kind (pver : N) (k : kind) : bool :=
   match k with
   | KAddr => MultipleAddressVersion <=? pver    (* below it BsvEncode refuses more than one address *)
   | KVerAck | KGetAddr | KGetBlocks | KGetHeaders | KHeaders | KInv | KGetData | KNotFound
-  | KPing | KPong | KReject | KSendHeaders | KFeeFilter | KMemPool => true
+  | KPing | KPong | KReject | KSendHeaders | KFeeFilter | KMemPool
+  | KFilterAdd | KFilterClear | KFilterLoad => true
   | _ => false
   end.
 
